@@ -129,9 +129,7 @@ func init() {
 						nDefs++
 						key := fmt.Sprintf("%s local %s := …streamOffset…@%s", f.Key(), v.Name(), relLine(p, f, as))
 						redef := func(n ast.Node) bool {
-							if n == ast.Node(as) {
-								return false
-							}
+							// searches start behind the definition: meeting it again (in a loop) is a redefinition
 							switch s := n.(type) {
 							case *ast.AssignStmt:
 								for _, l := range s.Lhs {
@@ -146,11 +144,19 @@ func init() {
 						}
 						uses := func(n ast.Node) bool {
 							found := false
-							inspectShallow(n, func(x ast.Node) bool {
-								if id, ok := x.(*ast.Ident); ok && info.Uses[id] == v {
-									found = true
+							inspectParents(n, func(x ast.Node, parents []ast.Node) bool {
+								id, ok := x.(*ast.Ident)
+								if !ok || info.Uses[id] != v {
+									return true
 								}
-								return !found
+								// `p.streamOffset[dir] - before`: measuring how far the call advanced is what a copy is for
+								if len(parents) > 0 {
+									if be, ok := parents[len(parents)-1].(*ast.BinaryExpr); ok && be.Op == token.SUB && ast.Unparen(be.Y) == ast.Expr(id) && readsFld(info, be.X) {
+										return true
+									}
+								}
+								found = true
+								return false
 							})
 							return found
 						}
